@@ -124,16 +124,13 @@ def run_sequences(out, stream, n_ports, seqs):
         for s in seqs: res.append(await run_seq(ports, s))
         return res
     io = asyncio.run(go())
-    mo = lib.run_model([lib.req("bridge", list(range(n_ports)), [[k, i] for k, i in s if k not in (5, 6, 7)]) for s in seqs])
-    for j, s_ in enumerate(seqs):           # the model has no step for "stop another object": it repeats the previous observation
-        if any(k in (6, 7) for k, _ in s_):
-            steps = mo[j].split("|")[:-1]; outl = []; it = iter(steps); prev = None
-            for k, i in s_:
-                if k == 5: continue
-                if k in (6, 7): outl.append((prev[:-1] + ".") if prev else "r" + "-" * n_ports + ".")
-                else: prev = next(it); outl.append(prev)
-                prev = outl[-1]
-            mo[j] = "".join(x + "|" for x in outl)
+    # the several-objects model (Model/MultiBridge.v) gives the expected trace, also for actions on other bridge objects (kinds 6, 7);
+    # where only the observed object acts, the one-object model of theorem C17_lifecycle must say the same
+    mo = lib.run_model([lib.req("bridge2", list(range(n_ports)), [[k, i] for k, i in s if k != 5]) for s in seqs])
+    plain = [j for j, s_ in enumerate(seqs) if not any(k in (6, 7) for k, _ in s_)]
+    one = lib.run_model([lib.req("bridge", list(range(n_ports)), [[k, i] for k, i in seqs[j] if k != 5]) for j in plain])
+    lib.differential(out, stream + "/one-object-model-vs-several-objects-model", [{"ports": n_ports, "acts": [list(a) for a in seqs[j]]} for j in plain],
+                     [mo[j] for j in plain], one, None, lambda c: "models on %s" % c["acts"])
     # real sockets: a port can be taken by another process between two probes.  A sequence whose trace differs from the model's or
     # fails the Spec is run once more on fresh ports; only what reproduces is reported
     suspect = [k for k in range(len(seqs)) if io[k] != mo[k] or spec_judge(n_ports, io[k]) != "ok"]
